@@ -119,6 +119,6 @@ def to_array(func):
         -------
             The function values evaluated on the grid with the same structure as the input grid_like object.
         """
-        return ArrayMaker(func=func, obj=obj, grid=grid, *args, **kwargs).result
+        return ArrayMaker(func, obj, grid, *args, **kwargs).result
 
     return wrapper
